@@ -193,6 +193,18 @@ fn axes() -> Vec<(String, Box<dyn Fn(&mut Form, &mut bool) + Send + Sync>)> {
         *j = false;
     }));
     add(&mut v, "unknown-field", Box::new(|f, _| f.fields.insert(1, ("x-ignore-me".into(), "1".into()))));
+    // how a part spells its headers: a second header line after / before Content-Disposition, the name in lower case
+    // (a spelling without any blank is refused as malformed - not a browser's, not judged) - on the first field (every later one-header part follows it), on a middle one, on the last, and on all
+    for shape in 1u8..=3 {
+        for which in ["first", "middle", "last", "all"] {
+            add(&mut v, &format!("part-headers-shape{shape}-on-{which}-field"), Box::new(move |f, _| {
+                let n = f.fields.len();
+                let idx: Vec<usize> = match which { "first" => vec![0], "middle" => vec![n / 2], "last" => vec![n - 1], _ => (0..n).collect() };
+                f.part_shapes = idx.into_iter().map(|i| (i, shape)).collect();
+            }));
+        }
+    }
+    add(&mut v, "file-part-content-type-first", Box::new(|f, _| f.file_type_first = true));
     add(&mut v, "field-after-file", Box::new(|f, _| f.after.push(("submit".into(), "Upload".into()))));
     add(&mut v, "key-with-specials", Box::new(|f, _| f.set_field("key", "up/a b+c%d&e=f?g#h/é😀")));
     // values whose edges are white space (a value ends where the CRLF of the next delimiter begins, not earlier)
@@ -574,7 +586,7 @@ pub fn run(ctx: &Ctx) -> (Acc, Report) {
     });
     let rep = Report {
         level: "exploration",
-        rule: format!("{n_variants} forms: a policy-signed base form with 0, 1 and 2 simultaneous deviations (thorough: 3 over the axes that are not single-byte file contents) over {n_axes} axes (field-name case, x-amz-meta fields, header-equivalent fields, duplicate/unknown/after-file fields, keys, 3 boundaries, file contents incl. every single byte value, CR/LF runs and proper prefixes of the delimiter, 19 policies: expiry on both sides of the owned clock, eq/starts-with/bucket/content-length-range/meta conditions satisfied and violated, malformed documents) plus every single-character mutation, removal and emptying of policy, signature, credential, date and algorithm. Every form with at most one deviation is delivered in one frame, in 1-byte frames, in 3-byte frames and cut in two at every offset from 3 bytes before the end of the file to 4 bytes after its closing delimiter; the others in one frame. Oracle: reference form verifier + field-wise comparison of the PutObjectInput at the backend."),
+        rule: format!("{n_variants} forms: a policy-signed base form with 0, 1 and 2 simultaneous deviations (thorough: 3 over the axes that are not single-byte file contents) over {n_axes} axes (field-name case, x-amz-meta fields, header-equivalent fields, duplicate/unknown/after-file fields, 13 spellings of part headers (a second header line after / before Content-Disposition, lower-case name; on the first, a middle, the last, all fields; the file part), keys, 3 boundaries, file contents incl. every single byte value, CR/LF runs and proper prefixes of the delimiter, 19 policies: expiry on both sides of the owned clock, eq/starts-with/bucket/content-length-range/meta conditions satisfied and violated, malformed documents) plus every single-character mutation, removal and emptying of policy, signature, credential, date and algorithm. Every form with at most one deviation is delivered in one frame, in 1-byte frames, in 3-byte frames and cut in two at every offset from 3 bytes before the end of the file to 4 bytes after its closing delimiter; the others in one frame. Oracle: reference form verifier + field-wise comparison of the PutObjectInput at the backend."),
         exhaustive: true,
         extra: json!({"forms": n_variants, "axes": n_axes, "transport_fault_cases": n_faults, "transport_fault_rule": "3 signed, compliant forms (base; 300-byte file with CR/LF; a field after the file) x body ends / I/O error / two frames then I/O error after every byte offset: whatever reaches the backend as an object write is the complete file"}),
         assumptions: vec![
